@@ -81,6 +81,10 @@ WCmp(x)   == {NBin(op, x, y) : op \in CmpOps, y \in {NVar("n1"), NVar("sn"), NVa
              \cup {NBin(op, y, x) : op \in CmpOps, y \in {NVar("n1"), NVar("nul")}}
 WEq(x)    == {NBin(op, x, y) : op \in EqOps, y \in PAny \cup {NVar("sn"), NNum(2)}}
              \cup {NBin(op, y, x) : op \in EqOps, y \in {NVar("n1"), NVar("nul")}}
+             \* two containers of the SAME shape whose elements are different expressions of one type
+             \* (with unknown elements in the same positions nothing is known about their equality)
+             \cup {NBin(op, NTuple(<<x, StrLit("a")>>), NTuple(<<y, StrLit("a")>>)) : op \in EqOps, y \in {NVar("s"), NVar("sn"), NVar("n2")}}
+             \cup {NBin(op, NObject(<<NKeyId("a"), x>>), NObject(<<NKeyId("a"), y>>)) : op \in EqOps, y \in {NVar("sn"), NVar("n2")}}
 WLogic(x) == {NBin(op, x, y) : op \in LogicOps, y \in PBool \cup {NVar("zz")}}
              \cup {NBin(op, y, x) : op \in LogicOps, y \in PBool \cup {NVar("zz")}}
 WCond(x)  == {NCond(x, a, b) : a \in {NVar("n1"), NVar("s"), NNull, NVar("t")}, b \in {NVar("n2"), NVar("sn"), NVar("l")}}
